@@ -48,6 +48,15 @@ def check_part(ctx, case, outpars, srcpars, dup, features, mult=None, roots=None
         clean = not any(src.ptag(x) == 'wp:docPr' and '<' in (x.get('descr') or '') for x in p.own)      # a description with '<' cannot be delimited
         if clean and not p.link_nested and got_atoms != want_atoms and any(k == 'alt' for k, _ in want_atoms):
             ctx.fail('text and picture stand-ins of a paragraph are not in document order', case, {'paragraph': p.k, 'part': p.part, 'expected_order': want_atoms, 'output_paragraph': outpars[i]}, features=features); bad = True; continue
+        # equations: the stand-in holds every character of the equation's text nodes, blanks included
+        if not any(src.ptag(x) == 'w:hyperlink' for x in p.own) and not p.link_nested:
+            maths = [x for x in p.own if src.ptag(x) == 'm:oMath' and not any(src.ptag(a) == 'm:oMath' for a in x.iterancestors())]
+            got_m = re.findall(r'<latex>(.*?)</latex>', outpars[i], flags=re.S)
+            if maths and len(got_m) == len(maths):
+                for x, g in zip(maths, got_m):
+                    want_m = ''.join(x.itertext())
+                    if g != want_m:
+                        ctx.fail('characters of an equation are missing from (or foreign to) its stand-in', case, {'paragraph': p.k, 'part': p.part, 'equation_text': want_m, 'stand_in': g}, features=features); bad = True; break
         # every text node in full (also whitespace-only ones), in order
         pos = 0
         for x in p.own:
